@@ -60,6 +60,19 @@ def _case(draw, shard):
             rows.append(dict(mutation_id="mut_%s" % "abcdefghijklmnop"[m], sample_id="s%d" % s, ref_counts=depth - alt, alt_counts=alt, major_cn=major, minor_cn=minor, normal_cn=normal, tumour_content=t, error_rate=eps))
     chains = [2, 3, 2, 1, 3, 2][shard % 6]
     clusters = None
+    many = shard % 6 == 4
+    if many:
+        # stratum of sharply separated mutations on one lineage: sampled trees reach 10-14 clones, where graph indices
+        # above 8 exist (set/hash-table iteration orders of small ints only vary once values collide modulo the table
+        # size), with several prune-regraph moves per sweep and sub-tree updates so that an edited tree is edited again
+        n = draw(st.integers(12, 14))
+        rows = []
+        for m in range(n):
+            for s in range(2):
+                depth = draw(st.sampled_from([3000, 2500, 4000]))
+                alt = int(depth * ((0.48 if s == 0 else 0.47) - 0.03 * m)) + draw(st.integers(0, 9))
+                rows.append(dict(mutation_id="mut_%02d" % m, sample_id="s%d" % s, ref_counts=depth - alt, alt_counts=alt, major_cn=1, minor_cn=1, normal_cn=2, tumour_content=1.0, error_rate=0.001))
+        chains = 2
     if heavy:
         # pre-clustered input with one cluster of 52 mutations (summing many grids is where a parallel reduction would go)
         base_rows = list(rows)
@@ -84,7 +97,7 @@ def _case(draw, shard):
         if heavy and v == 0:
             aff, delays = 2, {}
         variants.append(dict(hashseed=HASHSEEDS[(shard * 3 + v + draw(st.integers(0, 7))) % 8], aff=aff, delays=delays))
-    return dict(
+    case = dict(
         rows=rows,
         chains=chains,
         seed=(draw(st.integers(0, 2 ** 31 - 1)) + 7919 * shard) % (2 ** 31),
@@ -97,6 +110,13 @@ def _case(draw, shard):
         variants=variants,
         clusters=clusters,
     )
+    if many:
+        nprg = draw(st.sampled_from([3, 1, 2]))
+        case.update(
+            proposal=draw(st.sampled_from(PROPS)), outlier_prob=draw(st.sampled_from([0.0, 0.0, 0.001])), iters=draw(st.integers(120, 200)), N=10,
+            grid_size=101, nprg=nprg, ndp=draw(st.sampled_from([1, 2])), subtree_prob=0.5 if nprg == 1 else draw(st.sampled_from([0.0, 0.5])),
+        )
+    return case
 
 
 def strategy(ctx, shard=0):
@@ -110,7 +130,7 @@ def budget(ctx):
 def _launch(case, td, name, hashseed, aff, delays):
     out = os.path.join(td, name + ".pkl.gz")
     kw = dict(
-        in_file=os.path.join(td, "in.tsv"), out_file=out, cluster_file=(os.path.join(td, "clusters.tsv") if case.get("clusters") else None), burnin=1, num_iters=case["iters"], num_particles=case["N"], grid_size=11, seed=case["seed"], num_chains=case["chains"],
+        in_file=os.path.join(td, "in.tsv"), out_file=out, cluster_file=(os.path.join(td, "clusters.tsv") if case.get("clusters") else None), burnin=1, num_iters=case["iters"], num_particles=case["N"], grid_size=case.get("grid_size", 11), num_samples_prune_regraph=case.get("nprg", 1), num_samples_data_point=case.get("ndp", 1), seed=case["seed"], num_chains=case["chains"],
         proposal=case["proposal"], outlier_prob=case["outlier_prob"], subtree_update_prob=case["subtree_prob"], concentration_update=case["conc_update"], print_freq=1000, density="binomial",
     )
     env = dict(os.environ)
@@ -182,6 +202,10 @@ def evaluate(case):
             classes.append("trace-entry-with>=2-outliers")
         if case["outlier_prob"] > 0:
             classes.append("outliers-on")
+        if any(len(e[2]) >= 10 for seq in ref.values() for e in seq):
+            classes.append("trace-entry-with>=10-clones")
+        if case.get("nprg", 1) > 1:
+            classes.append("several-prune-regraph-moves-per-sweep")
         nontrivial = False
         for (name, hs, aff, delays) in runs[1:]:
             st_, got = outs[name]
